@@ -115,7 +115,14 @@ def strategy(tier):
                         min_size=1, max_size=4),
         'args': st.lists(st.sampled_from(['x', 1, None, True, 2.5, '']),
                          max_size=2)})
-    return st.one_of(*([_main_strategy(big, op)] * 5 + [odd]))
+    # threaded server: the acknowledgement of one client is processed while
+    # the application's callback for another client is still running (each
+    # connection has a thread of its own)
+    blocked = st.fixed_dictionaries({
+        'part': st.just('blocked_cb'),
+        'same_client': st.booleans(),
+        'args': st.lists(st.sampled_from(['x', 1, None, True]), max_size=2)})
+    return st.one_of(*([_main_strategy(big, op)] * 10 + [odd, odd, blocked]))
 
 
 def _main_strategy(big, op):
@@ -193,7 +200,64 @@ def _odd_ids(case):
         w.close()
 
 
+def _blocked_cb(case):
+    import threading
+    w = World(aio=False, namespaces=NSS)
+    try:
+        sio = w.sio
+        labels = {'part': 'blocked_cb', 'aio': False, 'nontrivial': True}
+        ta, tb = w.open(), w.open()
+        ca, _ = w.connect(ta, '/')
+        cb_, _ = w.connect(tb if not case['same_client'] else ta,
+                           '/' if not case['same_client'] else '/x')
+        A, B = w.clients[ca], w.clients[cb_]
+        gate = threading.Event()
+        entered = threading.Event()
+        fired = []
+
+        def slow(*a):
+            entered.set()
+            gate.wait(20)
+            fired.append(('A', a))
+
+        def quick(*a):
+            fired.append(('B', a))
+        w.recv_all()
+        sio.emit('ev', 1, to=A['sid'], namespace=A['ns'], callback=slow)
+        ida = w.recv(A['t'])[0]['id']
+        sio.emit('ev', 2, to=B['sid'], namespace=B['ns'], callback=quick)
+        idb = [p for p in w.recv(B['t'])][0]['id']
+        t1 = threading.Thread(target=lambda: w.send(
+            A['t'], wire.ACK, A['ns'], ida, ['slow']), daemon=True)
+        t1.start()
+        if not entered.wait(10):
+            raise Violation('callback-missing', 'the first callback never '
+                            'started')
+        t2 = threading.Thread(target=lambda: w.send(
+            B['t'], wire.ACK, B['ns'], idb, list(case['args'])),
+            daemon=True)
+        t2.start()
+        t2.join(10)
+        stuck = t2.is_alive() or ('B', tuple(case['args'])) not in fired
+        gate.set()
+        t1.join(10)
+        t2.join(10)
+        if stuck:
+            raise Violation('ack-blocked-while-callback-runs',
+                            'while the callback for %s was still running, '
+                            'the acknowledgement of %s (another thread) was '
+                            'not processed: %r' % (A['sid'], B['sid'], fired))
+        if sorted(fired, key=repr) != sorted(
+                [('A', ('slow',)), ('B', tuple(case['args']))], key=repr):
+            raise Violation('callback-args', repr(fired))
+        return labels
+    finally:
+        w.close()
+
+
 def check_case(case):
+    if case.get('part') == 'blocked_cb':
+        return _blocked_cb(case)
     if case.get('part') == 'odd_id':
         return _odd_ids(case)
     extra = {}
